@@ -615,3 +615,62 @@ Fixpoint first_bad (k : nat) (W : store) (steps : list (op * obs)) : option nat 
       | Unspec => Some k
       end
   end.
+
+(* ------------------------------------------------------------------ DETACHED views
+   A conformer that outlives every other reference to its ensemble -- restored from a pickle (alone, in a slice, as an element
+   of a pickled ensemble), deep-copied, returned by a helper whose ensemble was a local -- is still a conformer OF AN ENSEMBLE:
+   of a copy where the route copies, of the very ensemble otherwise.  In the model the conformer handle is (ensemble, row), so
+   detaching pushes a copy of ensemble i onto the store (nothing else refers to it) and the uses of the conformer are the
+   ordinary operations through a conformer on that new ensemble. *)
+Definition detach (W : store) (i : nat) : option store := option_map (push_ens W) (nth_error (enss W) i).
+
+Inductive duse :=
+| DRead                                                 (* coords / atomic_charges read; also dumps, the molecule codec, Molecule(c), pickle again *)
+| DTranslate (v : vec3) | DSetCoords (v : list row3) | DSetChargeElem (a : Z) (q : num) | DScale (f : Z).
+
+Definition duse_op (j : nat) (k : Z) (u : duse) : op :=
+  match u with
+  | DRead => ConfRead j k
+  | DTranslate v => ConfTranslate j k v
+  | DSetCoords v => ConfSetCoords j k v
+  | DSetChargeElem a q => ConfSetChargeElem j k a q
+  | DScale f => ConfScale j k f
+  end.
+
+Definition duse_fun (k : Z) (u : duse) (e : ens) : option ens :=
+  match u with
+  | DRead => match c_get_coords k e, c_get_charges k e with Some _, Some _ => Some e | _, _ => None end
+  | DTranslate v => c_map k (r_add v) e
+  | DSetCoords v => c_set_coords k v e
+  | DSetChargeElem a q => c_set_charge_elem k a q e
+  | DScale f => if scale_ok f false then c_map k (r_scale f) e else None
+  end.
+
+(* what the conformers of rows ks show *)
+Definition dview (ks : list Z) (e : ens) : option (list (list row3 * list num)) :=
+  all_some (map (fun k => match c_get_coords k e, c_get_charges k e with Some c, Some q => Some (c, q) | _, _ => None end) ks).
+
+(* use number un goes through the conformer number (un mod m) of the m that were obtained; after every use ALL are read *)
+Fixpoint run_detached (ks : list Z) (un : nat) (e : ens) (us : list duse) : option (list (list (list row3 * list num))) :=
+  match us with
+  | [] => Some []
+  | u :: r =>
+      match nth_error ks (un mod length ks) with
+      | None => None
+      | Some k => match duse_fun k u e with
+                  | None => None
+                  | Some e' => match dview ks e', run_detached ks (S un) e' r with
+                               | Some v, Some vs => Some (v :: vs)
+                               | _, _ => None
+                               end
+                  end
+      end
+  end.
+
+Definition dcase := (ens * list Z * list duse * list (list (list row3 * list num)))%type.
+Definition check_detached (c : dcase) : bool :=
+  let '(e, ks, us, obs) := c in
+  match run_detached ks 0 e us with
+  | Some vs => list_eqb (list_eqb (fun a b => (list_eqb row3_eqb (fst a) (fst b) && list_eqb num_eqb (snd a) (snd b))%bool)) vs obs
+  | None => false
+  end.
